@@ -9291,3 +9291,9 @@ pub mod benches {
 		}));
 	}
 }
+
+// verification hook (DESIGN.md of /verif): harnesses live outside the repository and are compiled only under cfg(kani) / cfg(ldk_verif)
+#[cfg(any(kani, ldk_verif))]
+#[allow(missing_docs, dead_code, unused_imports, unused_variables)]
+#[path = "/verif/hooks/router.rs"]
+pub mod verif_contracts;
